@@ -644,6 +644,8 @@ pub enum Action {
     Scale(f64),
     /// return ModifiedSolution after writing this state
     Set(Vec<f64>),
+    /// return XOut(x): ask for an interpolant once the integration has reached x (dense output on demand)
+    XOut(f64),
 }
 
 #[derive(Clone, Debug)]
@@ -722,6 +724,7 @@ impl<'p, 'a> SolOut for RecSolOut<'p, 'a> {
                 y.copy_from_slice(v);
                 ControlFlag::ModifiedSolution
             }
+            Some(Action::XOut(xo)) => ControlFlag::XOut(*xo),
         };
         self.cbs.push(Cb {
             xold,
